@@ -177,6 +177,17 @@ def run(ctx):
     # regression layouts: a contracted method whose declaring package the caller reaches only transitively
     from . import markers
     markers.corpus_modules(ctx, "c03r", "package layouts of contracted callees")
+    # known finding F81: the "always safe" pre-analysis only sees return statements of the package under analysis
+    kf81 = []
+    n81, b81 = markers.check_markers(os.path.join(common.VERIF, "corpus", "c03kf", "alwayssafe"), known=kf81)
+    ctx.obligation("corpus/c03kf/alwayssafe: the other %d marked uses behave as marked" % n81, n81 > 0 and not b81)
+    for b in b81[:2]:
+        ctx.violation("corpus-c03kf", "C03 fails on the real tool: %s\nreplay: bin/harness analyze -dir corpus/c03kf/alwayssafe\n" % b)
+    if kf81:
+        if any(k["id"] == "F81" for k in ctx.known_for()):
+            ctx.known_finding("F81", "moving an always-safe ok-/error-returning function into a dependency invents `lacking guarding` findings in the importer: %s (corpus/c03kf/alwayssafe)" % ", ".join(x[1] for x in kf81))
+        else:
+            ctx.violation("alwayssafe", "C03 fails on the real tool: the importer reports %s although the same functions in one package are clean\n" % ", ".join(x[1] for x in kf81))
     ctx.write_evidence()
 
 
